@@ -69,6 +69,17 @@ def jobs_for(tier, rng):
                      "test": rng.choice(["span", "max_diff"]), "calls": [3], "mbs": rng.choice([2, 1024]), "shuffle": False,
                      "injects": [{"v": gen.rand_values(rng, m["ns"], vmax=6)} for _ in range(2)], "tag": f"wildzero{k}",
                      "min_sweeps": 1})
+    # deterministic problems whose probability function returns INTEGER-typed indicators, rewards in quarter units
+    for k in range(4 if tier == "quick" else 30):
+        m = T.random_mdp(rng, ns=rng.randint(3, 9), na=rng.randint(2, 3), ne=rng.choice([1, 2, 3]), PD=1, rmax=7, rexp=2, v0max=2,
+                         plain_render=rng.random() < 0.5)
+        m["render"]["prob_int"] = True
+        m["render"]["prob_as_array"] = False
+        gen.fix_dups(m)
+        jobs.append({"mdp": m, "kind": rng.choice(["VI", "VI", "SAVI"]), "gamma": rng.choice(GAMMAS[:3]), "eps": [1, 4],
+                     "test": rng.choice(["span", "max_diff"]), "calls": [2], "mbs": rng.choice([2, 1024]), "shuffle": False,
+                     "injects": [{"v": gen.rand_values(rng, m["ns"], vmax=6)} for _ in range(2)], "tag": f"intprob{k}",
+                     "min_sweeps": 1})
     # coarse sub-stochastic rows (a problem may leave out events on purpose), including single-event problems whose
     # only event has an action-dependent probability below one
     for k in range(6 if tier == "quick" else 40):
